@@ -374,3 +374,6 @@ def run_case(case):
           "digest": common.digest(digest_acc, [o[0] for o in observed.values() if o]), "violations": viol, "traces": evals,
           "sample": {"program": case["layers"], "input_quantizer": IQ[case["iq"]], "weight_pattern": case["pattern"],
                      "accumulators": digest_acc}}
+
+# (appended: sub-lattices added after the seeded waves; kept out of the original RULE text for readability)
+RULE = RULE + '; weight kinds include stochastic kernels and po2 with max_value 3 / 6, input types include po2 activations, layer kinds include the folded QConv2DBatchnorm; histories: QTools run twice on one model object with other weights first'
